@@ -4,7 +4,10 @@ import (
 	"fmt"
 	"go/types"
 	"math/big"
+	"os"
+	"regexp"
 	"strings"
+	"sync"
 )
 
 type modelFn func(it *Interp, args []Val) Val
@@ -537,11 +540,40 @@ func init() {
 	}
 }
 
-const sdkDenomRegex = `^[a-zA-Z][a-zA-Z0-9/:._-]{2,127}$`
+// The denomination syntax is read from the cosmos-sdk version /repo builds against (types/coin.go: reDnmString);
+// it differs between SDK releases.
+var (
+	sdkDenomOnce  sync.Once
+	sdkDenomRegex string
+)
+
+func (it *Interp) denomRegex() string {
+	sdkDenomOnce.Do(func() {
+		pkg := it.prog.ImportedPackage(sdkT)
+		if pkg == nil {
+			return
+		}
+		g, ok := pkg.Members["reDnmString"]
+		if !ok {
+			return
+		}
+		src, err := os.ReadFile(it.prog.Fset.Position(g.Pos()).Filename)
+		if err != nil {
+			return
+		}
+		if m := regexp.MustCompile("reDnmString\\s*=\\s*`([^`]+)`").FindSubmatch(src); m != nil {
+			sdkDenomRegex = "^" + string(m[1]) + "$"
+		}
+	})
+	if sdkDenomRegex == "" {
+		it.fail("cannot find the denomination syntax (reDnmString) in the cosmos-sdk source")
+	}
+	return sdkDenomRegex
+}
 
 func init() {
 	models[sdkT+".ValidateDenom"] = func(it *Interp, a []Val) Val {
-		if it.p.branch(it.regexMatch(sdkDenomRegex, a[0].(*StrV))) {
+		if it.p.branch(it.regexMatch(it.denomRegex(), a[0].(*StrV))) {
 			return IfaceV{}
 		}
 		return it.newErr(IfaceV{}, "invalid denom")
